@@ -38,3 +38,10 @@ claim("C19", "proof",
       "the invariant is re-established, so sequences of any length are covered by induction from ROTENC_VAR_INIT.",
       "Ghost 'latched position' is maintained by the harness at detent visits (definition from the statement). One-click bound only for single-bit motion.",
       "DESIGN.md 5.C19")
+
+claim("C12", "proof",
+      "CBMC function contracts (goto-instrument --dfcc, assigns-clause frame checking) on every implemented function of the real pack.c over a harness-built cursor of symbolic size and position; stickiness and round trip as lemmas over the contracts",
+      "Every buffer size 0..2^31-1, every cursor position including past the end, every argument value and (for the byte-array items) every length below 2^31 is covered symbolically; "
+      "the postcondition is the statement's per-item contract and all CBMC memory-safety checks are obligations. Sequences of any length follow by induction over the per-item contract.",
+      "Accepted check classes (pointer comparison / subtraction with the cursor beyond the object, shift into the sign bit) are excluded and listed in accepted_ub.json. Trusted: CBMC models of malloc/memcpy/memset.",
+      "DESIGN.md 5.C12")
